@@ -30,6 +30,19 @@ REG_PARENTS = ((D.OFFICENS, u'styles'), (D.OFFICENS, u'automatic-styles'))
 QUERY = ['P', 'Span', 'Section', 'H', 'List', 'Style', 'Styles', 'Generator', 'A', 'DrawA', 'TextTitle', 'DcTitle']
 NAMESAKES = ['A', 'DrawA', 'TextTitle', 'DcTitle']       # text.A / draw.A, text.Title / dc.Title: same function name, other module
 NAMES = [u'A', u'B', u'MA', u'MMA', u'Nope']
+# style names that are NOT stable under the Unicode normalisation forms, each with twins that a normaliser would identify with
+# it (the property speaks of "the style of that name": names are compared code point by code point).  First entry: the
+# spelling that is not in composed form; the others: composed / otherwise normalised spellings, present at the same time.
+NAME_FAMILIES = [
+    [u'Cafe\u0301', u'Caf\u00e9', u'Cafe\u0301\u200d'],                          # base letter + combining mark / precomposed
+    [u'\u212bngstro\u0308m', u'\u00c5ngstr\u00f6m', u'A\u030angstro\u0308m'],     # ANGSTROM SIGN (singleton) / composed / fully decomposed
+    [u'\u2126hm', u'\u03a9hm', u'\u2126Hm'],                                       # OHM SIGN / GREEK CAPITAL OMEGA
+    [u'\u1112\u1161\u11ab', u'\ud55c', u'\u1112\u1161'],                          # Hangul conjoining jamo / precomposed syllable
+    [u'\ufb01gure', u'figure', u'\ufb01gure\u00b9'],                               # compatibility ligature (NFKC) / plain letters
+    [u'q\u0307\u0323', u'q\u0323\u0307', u'q\u0323'],                              # combining marks out of canonical order / in order
+    [u'\uf900x', u'\u8c48x', u'\uf900'],                                          # CJK compatibility ideograph / unified ideograph
+    [u'\u1e9b\u0323', u'\u1e9b', u'\u017f\u0323\u0307'],                          # long s with dots: NFC / NFD / NFKC all differ
+]
 FIXED_QN = {QSTYLE: 1, (D.OFFICENS, u'styles'): 2, (D.OFFICENS, u'automatic-styles'): 3, (METANS, u'generator'): 4}
 FIXED_KEY = {(D.STYLENS, u'name'): 1, (D.TEXTNS, u'style-name'): 2}
 
@@ -176,7 +189,7 @@ class DocWorld(D.World):
         """apply on the real document, record the protocol; returns the real answer"""
         k = op[0]
         doc = self.doc
-        if k in ('new', 'append', 'insb', 'rm', 'adde', 'addt', 'addc', 'setns'):
+        if k in ('new', 'append', 'insb', 'rm', 'adde', 'addt', 'addc', 'setns', 'rma'):
             line = self.line(op) if self.model_on else None
             ans = self.apply(op)
             if line: self.say(line, ans)
@@ -410,20 +423,28 @@ class Oracle(object):
 
 # ---------------------------------------------------------------------------------------------
 class History(object):
-    def __init__(self, rng):
+    def __init__(self, rng, family=None):
         self.rng = rng
         self.w = DocWorld()
         self.orc = Oracle(self.w)
         self.ops = []
         self.fname = {}
         self.loaded = False
+        # the names of this history: (a, b, c); a and b are borne by styles from the start, c comes in by renaming.
+        # family None: the plain names A, B, C; otherwise a family of NAME_FAMILIES (spellings a normaliser would identify)
+        self.family = family
+        self.abc = [u'A', u'B', u'C'] if family is None else list(NAME_FAMILIES[family])
+        a, b, c = self.abc
+        self.names = NAMES if family is None else [a, b, u'M' + a, c, u'MM' + a, u'Nope']
+        if family is not None:
+            self.ops.append(['names', family])       # pseudo-op at the head of the recorded history (replay reads it)
 
     # ---- one op + the battery of queries, all checked
     def step(self, op, battery=True):
         w = self.w; orc = self.orc
         idx = len(self.ops)
         self.ops.append(op)
-        if op[0] == 'setns' and op[3] == u'name':
+        if (op[0] == 'setns' and op[3] == u'name') or op[0] == 'rma':
             e = w.nodes[op[1]]
             if e.qname == QSTYLE and attached_to(e, w.doc.topnode) and e.parentNode.qname in REG_PARENTS:
                 orc.renamed = True
@@ -445,7 +466,7 @@ class History(object):
             for f in core + [NAMESAKES[idx % 4], NAMESAKES[(idx + 1) % 4], SKEL_QUERY[idx % len(SKEL_QUERY)]]:
                 q = ['bytype', f]; w.do(q); self.check_query(idx, q)
             q = ['elbytype', w.nid(w.doc.topnode), SKEL_QUERY[(idx + 1) % len(SKEL_QUERY)]]; w.do(q); self.check_query(idx, q)
-            for n in NAMES:
+            for n in (self.names if self.family is None else self.names[:4] + [self.names[4 + idx % 2]]):
                 q = ['style', n]; w.do(q); self.check_query(idx, q)
             els = [i for i in sorted(w.nodes) if w.nodes[i].nodeType == 1]
             for i in (els[idx % len(els)], els[(7 * idx + 3) % len(els)]):
@@ -475,6 +496,8 @@ class History(object):
         if op[0] == 'rm':
             p = w.nodes[op[1]]
             return p.nodeType == 1 and any(k is w.nodes[op[2]] for k in p.childNodes)
+        if op[0] == 'rma':            # removing an attribute the element has
+            return (D.STYLENS, u'name') in w.nodes[op[1]].attributes
         return op[0] in ('new', 'render', 'load', 'bytype', 'elbytype', 'style', 'setns', 'cache')
 
     # ---- generation
@@ -484,8 +507,16 @@ class History(object):
             i = w.fresh(); self.fname[i] = f
             self.step(['new', 'e', i, f], battery=False)
         styles = [i for i in sorted(self.fname) if self.fname[i] == 'Style']
-        for i, nm in zip(styles, [u'A', u'B', u'A', u'MA']):
+        a, b, c = self.abc
+        for i, nm in zip(styles, [a, b, a, u'M' + a]):
             self.step(['setns', i, D.STYLENS, u'name', nm], battery=False)
+        # two more styles: one that never gets a style:name (what Style(check_grammar=False) and load() of a file without the
+        # attribute give), one whose name is the empty string.  Ids follow the 16 elements above.
+        for nm in (None, u''):
+            i = w.fresh(); self.fname[i] = 'Style'
+            self.step(['new', 'e', i, 'Style'], battery=False)
+            if nm is not None:
+                self.step(['setns', i, D.STYLENS, u'name', nm], battery=False)
         for k, data in (('t', None), ('t', u''), ('c', u'')):       # one ordinary, one empty text node, an empty CDATA
             self.step(['new', k, w.fresh(), data], battery=False)
 
@@ -559,13 +590,15 @@ class History(object):
                 if cand: return [k, r.choice(cand), w.fresh(), u'txt' if k == 'addt' else r.choice([u'cd', u''])]
             if k == 'rename':
                 S = [i for i in M if w.nodes[i].nodeType == 1 and w.nodes[i].qname == QSTYLE]
-                if S and r.random() < 0.5: return ['setns', r.choice(S), D.STYLENS, u'name', r.choice([u'A', u'B', u'C'])]
+                if S and r.random() < 0.5:
+                    if r.random() < 0.2: return ['rma', r.choice(S), 'name']          # removeAttribute('name'): the style loses its name
+                    return ['setns', r.choice(S), D.STYLENS, u'name', r.choice(self.abc + ([u''] if r.random() < 0.3 else []))]
             if k == 'cache':
                 return ['cache', r.choice(['clear', 'clear', 'rebuild'])]
             if k == 'render':
                 return ['render', r.choice(['xml', 'metaxml', 'save']), w.fresh(), w.fresh()]
             if k == 'query':
-                return r.choice([['bytype', r.choice(QUERY)], ['style', r.choice(NAMES + [u'my style'])]])
+                return r.choice([['bytype', r.choice(QUERY)], ['style', r.choice(self.names + [u'my style', u''])]])
             if k == 'load' and not self.loaded and r.random() < 0.25:
                 self.loaded = True
                 return ['load']
@@ -573,7 +606,10 @@ class History(object):
 
 
 def replay_history(ops):
-    h = History(None)
+    fam = None
+    if ops and ops[0][0] == 'names':
+        fam = ops[0][1]; ops = ops[1:]
+    h = History(None, family=fam)
     for op in ops:
         if op[0] == 'load': h.loaded = True
         if op[0] == 'new' and op[1] == 'e': h.fname[op[2]] = op[3]
@@ -590,7 +626,7 @@ def shrink(ops, sig):
     while changed:
         changed = False
         for i in range(len(cur) - 1, -1, -1):
-            if cur[i][0] == 'new': continue
+            if cur[i][0] in ('new', 'names'): continue
             cand = cur[:i] + cur[i + 1:]
             try:
                 h = replay_history(cand)
@@ -629,7 +665,7 @@ def shrink_corr(drv, ops):
     while changed:
         changed = False
         for i in range(len(cur) - 1, -1, -1):
-            if cur[i][0] == 'new': continue
+            if cur[i][0] in ('new', 'names'): continue
             cand = cur[:i] + cur[i + 1:]
             try:
                 h = replay_history(cand)
@@ -891,6 +927,11 @@ PK_TEXTY = ('P', 'Span', 'H', 'A')
 PK_RENDER = ['xml', 'contentxml', 'stylesxml', 'metaxml', 'settingsxml', 'write', 'save', 'mediatype']
 PK_PARTS = [u'styles.xml', u'meta.xml', u'settings.xml']
 PK_NAMES = [u'A', u'B', u'MA', u'P1', u'Nope', u'my style']
+# style names of a package: the four plain ones, spellings that a Unicode normaliser would identify (both present at the same
+# time), and None = a style:style without style:name (Style(check_grammar=False); after a load: a file that lacks the attribute)
+PK_STYLE_NAMES = PK_NAMES[:4] + [NAME_FAMILIES[0][0], NAME_FAMILIES[0][1], NAME_FAMILIES[1][0], NAME_FAMILIES[1][1],
+                                NAME_FAMILIES[3][0], NAME_FAMILIES[3][1], None, None, u'']
+PK_LOOKUP = PK_NAMES + [n for f in NAME_FAMILIES[:4] for n in f[:2]] + [u'']
 
 
 def pk_factory(name):
@@ -913,7 +954,7 @@ def pk_random_tree(r, budget, depth=0):
 
 def pk_random_spec(r, depth=0):
     spec = {'kind': r.choice(sorted(PK_KINDS)), 'tree': pk_random_tree(r, [r.randint(0, 9)]),
-            'styles': [[r.choice(['styles', 'automatic']), r.choice(PK_NAMES[:4])] for _ in range(r.choice([0, 0, 1, 2, 3]))],
+            'styles': [[r.choice(['styles', 'automatic']), r.choice(PK_STYLE_NAMES)] for _ in range(r.choice([0, 0, 1, 2, 3, 4]))],
             'objects': []}
     if depth < 2:
         for _ in range(r.choice([0, 1, 1, 2] if depth == 0 else [0, 0, 1])):
@@ -927,7 +968,7 @@ def pk_random_steps(r):
         for _ in range(n):
             k = r.choice(['render', 'render', 'edit', 'edit', 'edit', 'lookup'])
             if k == 'render': steps.append(['render', r.choice(PK_RENDER), r.randint(0, 5)])
-            elif k == 'lookup': steps.append(['lookup', r.choice(PK_NAMES), r.randint(0, 5)])
+            elif k == 'lookup': steps.append(['lookup', r.choice(PK_LOOKUP), r.randint(0, 5)])
             else: steps.append(['edit', r.choice(['add', 'add', 'rm', 'move', 'insb', 'addobject']), r.randint(0, 5), r.randint(0, 999), r.randint(0, 999)])
     some(r.randint(0, 3))
     for _ in range(r.choice([1, 1, 2, 3])):
@@ -950,7 +991,10 @@ class Package(object):
         subs = [self.build(s) for s in spec['objects']]
         hrefs = [doc.addObject(s) for s in subs]
         for where, name in spec['styles']:
-            st = style.Style(name=name, family=u'paragraph')
+            if name is None:
+                st = style.Style(family=u'paragraph', check_grammar=False)
+            else:
+                st = style.Style(name=name, family=u'paragraph')
             (doc.styles if where == 'styles' else doc.automaticstyles).addElement(st)
         self.fill(doc.body.firstChild, spec['tree'], hrefs)
         return doc
@@ -1020,7 +1064,7 @@ class Package(object):
             for e in attached_elements(d):
                 if e.qname == QSTYLE and e.parentNode is not None and e.parentNode.qname in REG_PARENTS:
                     reg.setdefault(e.attributes.get((D.STYLENS, u'name')), []).append(e)
-            for nm in [st[1]] + sorted(n for n in reg if n is not None)[:3]:
+            for nm in [st[1]] + sorted(n for n in reg if n is not None):
                 res = d.getStyleByName(nm)
                 want = reg.get(ncname(nm), [])
                 if (not want and res is not None) or (want and not any(res is e for e in want)):
@@ -1033,21 +1077,33 @@ class Package(object):
             els = attached_elements(d)
             free = [e for e in els if e.parentNode is not None and e.parentNode is not d.topnode and e.parentNode is not d.body]
             a = els[st[3] % len(els)]
-            if st[1] == 'add':
-                e = pk_factory(['P', 'Span', 'Body', 'Style', 'Frame'][st[4] % 5])(check_grammar=False)
-                a.addElement(e, check_grammar=False)
-            elif st[1] == 'addobject':
-                import odf.opendocument as od
-                sub = od.OpenDocumentChart()
-                sub.chart.addElement(pk_factory('Chart')(check_grammar=False), check_grammar=False)
-                d.addObject(sub)
-            elif free:
-                b = free[st[4] % len(free)]
-                if st[1] == 'rm':
-                    self.keep.append(b); b.parentNode.removeChild(b)
-                elif not attached_to(a, b):                      # a is not inside b
-                    if st[1] == 'move': a.appendChild(b)
-                    else: a.insertBefore(b, a.firstChild)
+            # styles (with and without a name) are preferred targets of every other removal / move
+            sty = [e for e in free if e.qname == QSTYLE]
+            if st[4] % 2 == 1 and sty and st[1] in ('rm', 'move', 'insb'):
+                free = sty
+            try:
+                if st[1] == 'add':
+                    e = pk_factory(['P', 'Span', 'Body', 'Style', 'Frame'][st[4] % 5])(check_grammar=False)
+                    a.addElement(e, check_grammar=False)
+                elif st[1] == 'addobject':
+                    import odf.opendocument as od
+                    sub = od.OpenDocumentChart()
+                    sub.chart.addElement(pk_factory('Chart')(check_grammar=False), check_grammar=False)
+                    d.addObject(sub)
+                elif free:
+                    b = free[st[4] % len(free)]
+                    if st[1] == 'rm':
+                        self.keep.append(b); b.parentNode.removeChild(b)
+                    elif not attached_to(a, b):                      # a is not inside b
+                        if st[1] == 'move': a.appendChild(b)
+                        else: a.insertBefore(b, a.firstChild)
+            except RecursionError:
+                raise
+            except Exception as e:
+                # every one of these edits is legal: a real child is removed, a node is moved to a place that is not inside itself,
+                # an element is added without grammar check
+                self.fail('legal-edit-refused-package', 'document %s: %s raised %s: %s' % (path, st[:2], type(e).__name__, e))
+                return
         elif k == 'reload':
             from odf.opendocument import load
             buf = io.BytesIO()
@@ -1159,15 +1215,26 @@ def package_histories(chk, n):
             chk.fail(sig, {'package': {'spec': spec, 'steps': steps}}, p.failed[2])
 
 
-def targeted_histories():
+def targeted_histories(abc=(u'A', u'B', u'C')):
     """scripted histories for the situations random search reaches rarely: a container of styles moved as a whole,
     a registered style that ends up outside the style sections, name clashes onto taken names.
     Ids: skeleton 0..11 (7 = office:styles, 8 = office:automatic-styles, 11 = office:text), then the prologue:
     12,13 P; 14,15 Span; 16 Section; 17 H; 18 List; 19 ListItem; 20 Styles; 21 AutomaticStyles; 22..25 Style A,B,A,MA;
-    26 text:a; 27 text:title"""
+    26 text:a; 27 text:title; 28 Style without a name; 29 Style named ''.  abc: the three names of the history"""
     NS = D.STYLENS
-    look = [['style', u'A'], ['style', u'B'], ['style', u'MA'], ['style', u'C']]
+    A, B, C = abc
+    look = [['style', A], ['style', B], ['style', u'M' + A], ['style', C]]
+    look0 = look + [['style', u'']]
     return [
+        # 28 = a style:style WITHOUT style:name, 29 = one whose name is the empty string: attached under office:styles /
+        # automatic-styles / office:text, moved (insertBefore / appendChild / addElement), removed, re-attached; inside a
+        # container that is attached and removed as a whole; a registered style that loses its name and is then removed
+        [['append', 7, 28], ['append', 7, 22], ['append', 7, 29]] + look0 + [['insb', 7, 28, 22], ['append', 8, 28], ['adde', 7, 28]] + look0 +
+        [['rm', 7, 28], ['rm', 7, 29]] + look0 + [['append', 11, 28], ['rm', 11, 28], ['append', 8, 29], ['insb', 7, 29, 22], ['rm', 7, 29]] + look0,
+        [['append', 20, 28], ['append', 20, 23], ['append', 20, 29], ['append', 10, 20]] + look0 + [['rm', 20, 28]] + look0 + [['append', 20, 28], ['rm', 10, 20]] + look0 +
+        [['append', 12, 28], ['append', 11, 12], ['rm', 11, 12]] + look0,
+        [['append', 7, 22], ['append', 8, 23], ['rma', 22, 'name']] + look0 + [['insb', 7, 22, None], ['rm', 7, 22]] + look0 +
+        [['rma', 23, 'name'], ['append', 7, 23], ['rm', 7, 23], ['setns', 28, NS, u'name', B], ['append', 7, 28]] + look0,
         # container with a style attached as a whole, removed as a whole; the style then goes under office:text
         [['append', 20, 22], ['append', 7, 23], ['append', 11, 20]] + look + [['rm', 11, 20]] + look +
         [['append', 11, 22]] + look + [['append', 11, 20]] + look,
@@ -1175,8 +1242,8 @@ def targeted_histories():
         [['append', 21, 22], ['append', 21, 24], ['append', 7, 23], ['append', 10, 21]] + look + [['rm', 10, 21]] + look +
         [['append', 10, 21]] + look + [['append', 7, 22]] + look,
         # a registered style renamed, moved (still attached) out of the style sections, renamed back
-        [['append', 7, 22], ['append', 7, 23], ['setns', 22, NS, u'name', u'C']] + look + [['append', 11, 22]] + look +
-        [['setns', 22, NS, u'name', u'A']] + look + [['append', 8, 22]] + look,
+        [['append', 7, 22], ['append', 7, 23], ['setns', 22, NS, u'name', C]] + look + [['append', 11, 22]] + look +
+        [['setns', 22, NS, u'name', A]] + look + [['append', 8, 22]] + look,
         # clash onto a taken name: MA, A, A
         [['append', 7, 25], ['append', 7, 22], ['append', 8, 24]] + look + [['rm', 8, 24]] + look + [['rm', 7, 25]] + look,
         # a text:a and a text:title in the document, then the namesake factories draw.A / dc.Title are asked
@@ -1186,7 +1253,7 @@ def targeted_histories():
         [['append', 11, 12], ['append', 12, 14], ['cache', 'clear'], ['rm', 12, 14], ['append', 11, 13], ['cache', 'clear'],
          ['append', 13, 14], ['insb', 11, 13, 12], ['cache', 'rebuild'], ['rm', 11, 12], ['append', 7, 22], ['cache', 'clear'], ['rm', 7, 22]],
         # a renamed style removed, another style of its old name added
-        [['append', 7, 22], ['setns', 22, NS, u'name', u'B'], ['append', 8, 23]] + look + [['rm', 7, 22], ['append', 8, 24]] + look,
+        [['append', 7, 22], ['setns', 22, NS, u'name', B], ['append', 8, 23]] + look + [['rm', 7, 22], ['append', 8, 24]] + look,
     ]
 
 
@@ -1217,7 +1284,9 @@ def run(chk, replay=None):
     thorough = chk.tier == 'thorough'
     nhist = 2000 if thorough else 420
     for s in range(nhist):
-        h = History(chk.rng)
+        # two histories in five use names that are not stable under Unicode normalisation, with their normalised twins
+        h = History(chk.rng, family=(None if s % 5 < 3 else (s // 5) % len(NAME_FAMILIES)))
+        chk.count('history_plain_names' if h.family is None else 'history_names_not_normalisation_stable')
         h.prologue()
         n = chk.rng.randint(5, 30)
         for _ in range(n):
@@ -1237,8 +1306,12 @@ def run(chk, replay=None):
             report(chk, h)
     twodocs_histories(chk, 1500 if thorough else 250)
     package_histories(chk, 1000 if thorough else 160)
-    for k, script in enumerate(targeted_histories()):
-        h = History(chk.rng)
+    scripts = [(None, sc) for sc in targeted_histories()]
+    for fam in range(len(NAME_FAMILIES)):         # the same scripts with names a normaliser would identify (thorough: all of them)
+        ts = targeted_histories(tuple(NAME_FAMILIES[fam]))
+        scripts += [(fam, sc) for j, sc in enumerate(ts) if thorough or j == fam % 3 or j == 3 + fam % (len(ts) - 3)]
+    for k, (fam, script) in enumerate(scripts):
+        h = History(chk.rng, family=fam)
         h.prologue()
         for op in script:
             if h.orc.failed: break
